@@ -1,8 +1,11 @@
 """C04 translator: anchored, fail-closed extraction of the decisive facts of cast_to_integer_or_char
 (src/c/_cffi_backend.c) into coq/C04/Gen.v: the order of the source-kind branches, the `strict` argument of
 the final integer conversion, and the statements after the label got_value (where `value = !!value` sits
-relative to the store).  Any deviation from the recorded shapes raises TranslateError; the caller then
-restores the committed snapshot and the correspondence run carries the tie."""
+relative to the store); and of the pointer branch of do_cast: the `strict` argument of its integer
+conversion (`value = _my_PyLong_AsUnsignedLongLong(ob, STRICT)`), found by shape inside do_cast.
+Any deviation from the recorded shapes raises TranslateError; the caller then restores the committed
+snapshot (so that the Coq files still build against a known state) AND records a broken obligation: a
+fact that can no longer be read off the source is never silently kept."""
 import os
 import re
 
@@ -74,8 +77,52 @@ def _tail(t):
     return out
 
 
+def _ptr_strict(text):
+    """the `strict` argument of the integer conversion in the pointer branch of do_cast.
+    Recorded shape of that branch (first `if` of do_cast, target is a pointer / function pointer / array):
+    it starts by passing the c_data of a pointer-like cdata source through unchanged, and ends with
+        value = _my_PyLong_AsUnsignedLongLong(ob, STRICT);
+        if (value == (unsigned PY_LONG_LONG)-1 && PyErr_Occurred()) return NULL;
+        return new_simple_cdata((char *)(Py_intptr_t)value, ct);
+    with exactly one call of _my_PyLong_AsUnsignedLongLong in the branch."""
+    m = re.search(r"^static PyObject \*do_cast\(CTypeDescrObject \*ct, PyObject \*ob\)\n\{\n(.*?)^\}", text, re.M | re.S)
+    if not m:
+        raise TranslateError("do_cast not found")
+    body = re.sub(r"/\*.*?\*/", " ", m.group(1), flags=re.S)
+    if re.search(r"^\s*#", body, flags=re.M):
+        raise TranslateError("do_cast: unexpected preprocessor line")
+    b = _ws(body)
+    m = re.match(r"^CDataObject \*cd; if \(ct->ct_flags & \(CT_POINTER\|CT_FUNCTIONPTR\|CT_ARRAY\) && ct->ct_size >= 0\) \{", b)
+    if not m:
+        raise TranslateError("do_cast: the pointer branch is not the first test")
+    e = _match_brace(b, m.end() - 1)
+    blk = b[m.end():e - 1].strip()
+    if not b[e:].lstrip().startswith("else if (ct->ct_flags & (CT_PRIMITIVE_SIGNED|CT_PRIMITIVE_UNSIGNED |CT_PRIMITIVE_CHAR)) { "
+                                     "return (PyObject *)cast_to_integer_or_char(ct, ob); }"):
+        raise TranslateError("do_cast: integer/char targets are not dispatched to cast_to_integer_or_char "
+                             "right after the pointer branch")
+    head = (r"^unsigned PY_LONG_LONG value; if \(CData_Check\(ob\)\) \{ CDataObject \*cdsrc = \(CDataObject \*\)ob; "
+            r"if \(cdsrc->c_type->ct_flags & \(CT_POINTER\|CT_FUNCTIONPTR\|CT_ARRAY\)\) \{ "
+            r"return new_simple_cdata\(cdsrc->c_data, ct\); \} \} ")
+    tail = (r" value = _my_PyLong_AsUnsignedLongLong\(ob, (\d+)\); "
+            r"if \(value == \(unsigned PY_LONG_LONG\)-1 && PyErr_Occurred\(\)\) return NULL; "
+            r"return new_simple_cdata\(\(char \*\)\(Py_intptr_t\)value, ct\);$")
+    if not re.match(head, blk):
+        raise TranslateError("do_cast pointer branch: pointer-like cdata sources no longer pass c_data through first: %r"
+                             % blk[:160])
+    mm = re.search(tail, blk)
+    if not mm:
+        raise TranslateError("do_cast pointer branch: does not end with the recorded integer conversion: %r" % blk[-260:])
+    if blk.count("_my_PyLong_AsUnsignedLongLong(") != 1 or len(re.findall(r"\bvalue =(?!=)", blk)) != 1:
+        raise TranslateError("do_cast pointer branch: more than one conversion / assignment to value")
+    if mm.group(1) not in ("0", "1"):
+        raise TranslateError("do_cast pointer branch: strict argument %r" % mm.group(1))
+    return int(mm.group(1))
+
+
 def translate(repo):
     text = open(os.path.join(repo, "src", "c", "_cffi_backend.c")).read()
+    ptr_strict = _ptr_strict(text)
     m = re.search(r"^static CDataObject \*cast_to_integer_or_char\(CTypeDescrObject \*ct, PyObject \*ob\)\n\{\n(.*?)^\}",
                   text, re.M | re.S)
     if not m:
@@ -144,7 +191,7 @@ def translate(repo):
     if not m:
         raise TranslateError("label got_value")
     tail = _tail(m.group(1))
-    L = ["(* GENERATED by tools/props/c04_regen.py from cast_to_integer_or_char (src/c/_cffi_backend.c).",
+    L = ["(* GENERATED by tools/props/c04_regen.py from cast_to_integer_or_char and do_cast (src/c/_cffi_backend.c).",
          "   Do not edit: regenerated and re-checked on every run of ./check C04. *)",
          "From Coq Require Import List.",
          "From Cffi Require Import C04.IR.",
@@ -155,7 +202,9 @@ def translate(repo):
          "(* value = _my_PyLong_AsUnsignedLongLong(ob, STRICT) in the final else *)",
          "Definition cast_number_strict : bool := %s." % ("true" if strict else "false"),
          "(* the statements after got_value:, in order *)",
-         "Definition cast_tail : list tstmt := [%s]." % "; ".join(tail)]
+         "Definition cast_tail : list tstmt := [%s]." % "; ".join(tail),
+         "(* do_cast, pointer branch: value = _my_PyLong_AsUnsignedLongLong(ob, STRICT); (char * )(Py_intptr_t)value *)",
+         "Definition cast_ptr_strict : bool := %s." % ("true" if ptr_strict else "false")]
     return "\n".join(L) + "\n"
 
 
@@ -171,6 +220,9 @@ def regen(ctx, vlib):
                 with open(path, "w") as f:
                     f.write(snap)
         ctx.translator("C04/Gen.v", "fallback: %s" % e)
+        ctx.obligation_broken("C04: regeneration of C04/Gen.v from src/c/_cffi_backend.c (cast_to_integer_or_char / the "
+                              "pointer branch of do_cast no longer have the recorded shape; the committed snapshot was "
+                              "put back, its facts are NOT checked against this source)", str(e))
         return False
     if new == old:
         ctx.translator("C04/Gen.v", "unchanged")
